@@ -69,7 +69,8 @@ Section Sorted.
   Lemma selected_subset : forall c a benches groups,
     is_list a = false -> a <> ListTerse ->
     Permutation (executed (fst (run_action c srt a benches groups)))
-                (filter (fun x => c_filter c (xpath x)) (flat_map (keyed_case c groups) (all_entries benches groups))).
+                (filter (fun x => c_filter c (xpath x))
+                        (flat_map (keyed_case c (attach_key benches groups) groups) (all_entries benches groups))).
   Proof.
     intros c a benches groups Ha Hb.
     destruct (run_action_exec srt srt_perm c a benches groups Ha Hb) as [_ Hx]. rewrite Hx.
@@ -85,9 +86,9 @@ Section Sorted.
     | None => exists e, In e es /\ entry_id e = fst (fst x) /\ entry_runner e = RPlain
     end.
 
-  Lemma keyed_case_value : forall c groups e x, In x (keyed_case c groups e) -> value_ok [e] x.
+  Lemma keyed_case_value : forall c kf groups e x, In x (keyed_case c kf groups e) -> value_ok [e] x.
   Proof.
-    intros c groups e x Hx. unfold keyed_case, case_of in Hx. cbn [fst snd rekey rleaf_of] in Hx.
+    intros c kf groups e x Hx. unfold keyed_case, case_of in Hx. cbn [fst snd rekey rleaf_of] in Hx.
     destruct (leaf_ignored c _); [contradiction|].
     destruct (entry_runner e) as [|o vals] eqn:He.
     - destruct Hx as [Hx|[]]. subst x. exists e. cbn. auto.
@@ -110,7 +111,7 @@ Section Sorted.
     intros c a benches groups Ha Hb. apply Forall_forall. intros x Hx.
     apply (Permutation_in x (selected_subset c a benches groups Ha Hb)) in Hx.
     apply filter_In in Hx. destruct Hx as [Hx _]. apply in_flat_map in Hx. destruct Hx as [e [He Hx]].
-    apply (value_ok_weaken e); [exact He|]. apply (keyed_case_value c groups e x Hx).
+    apply (value_ok_weaken e); [exact He|]. apply (keyed_case_value c _ groups e x Hx).
   Qed.
 End Sorted.
 
